@@ -253,6 +253,9 @@ MUTANTS = [
  ("c19-permissionless-fee-withdrawal-any-destination", M+"instructions/marginfi_group/collect_bank_fees.rs",
   "        has_one = fees_destination_account @ MarginfiError::InvalidFeesDestinationAccount,\n    )]\n    pub bank: AccountLoader<'info, Bank>,\n\n    #[account(\n        mut,\n        seeds = [\n            FEE_VAULT_SEED.as_bytes(),",
   "    )]\n    pub bank: AccountLoader<'info, Bank>,\n\n    #[account(\n        mut,\n        seeds = [\n            FEE_VAULT_SEED.as_bytes(),", ["C19", "C08"]),
+ ("c10-end-passes-unchecked-when-risk-engine-cannot-be-built", M+"instructions/marginfi_account/liquidate_end.rs",
+  "    let risk_engine = RiskEngine::new(marginfi_account, remaining_ais)?;\n\n    let (post_health,",
+  "    let risk_engine = match RiskEngine::new(marginfi_account, remaining_ais) {\n        Ok(r) => r,\n        Err(_) => {\n            marginfi_account.unset_flag(ACCOUNT_IN_RECEIVERSHIP, false);\n            liq_record.liquidation_receiver = Pubkey::default();\n            return Ok((I80F48::ZERO, 0.0, I80F48::ZERO, 0.0));\n        }\n    };\n\n    let (post_health,", ["C10"]),
 ]
 
 def sh(cmd, **kw):
